@@ -559,7 +559,7 @@ def run_compile(job):
     outdir, header, cmd, xlang = job[:4]
     full = cmd + ["-fsyntax-only", "-I", str(outdir), "-x", xlang, "-"]
     if "--enable-serialization-asserts" in job_args(job):
-        full.insert(1, "-DNUNAVUT_ASSERT(x)=(void)(x)")   # supplying NUNAVUT_ASSERT is the documented duty of the user of this option
+        full.insert(1, "-DNUNAVUT_ASSERT(x)=assert(x)")   # the definition both support headers document for the user of this option
     try:
         p = subprocess.run(full, input=f'#include "{header}"\n', capture_output=True, text=True, timeout=CC_TIMEOUT)
     except subprocess.TimeoutExpired:
@@ -610,7 +610,7 @@ def job_command(job, tu):
     outdir, header, cmd, xlang = job[:4]
     full = cmd + ["-fsyntax-only", "-I", str(outdir), "-x", xlang, str(tu)]
     if "--enable-serialization-asserts" in job_args(job):
-        full.insert(1, "-DNUNAVUT_ASSERT(x)=(void)(x)")   # supplying NUNAVUT_ASSERT is the documented duty of the user of this option
+        full.insert(1, "-DNUNAVUT_ASSERT(x)=assert(x)")   # the definition both support headers document for the user of this option
     return full
 
 
